@@ -112,6 +112,7 @@ def gen_scenario(seed, opts):
         tools = "real"
     fault_free = r.below(10) < 3
     files, pre, invs = {}, {}, []
+    all_inputs = []
     files["common.h"] = "header"
     enabled_fault_kinds = [k for k in ("childexit", "childsig", "callockill", "openr", "readerr", "openw", "writeerr", "closeerr", "forkfail", "execfail", "mkstempfail")
                            if r.below(2)]  # swarm: a random subset per run
@@ -135,9 +136,21 @@ def gen_scenario(seed, opts):
                 kind = "valid2"
             sub = "d%d/" % r.below(2) if r.below(6) == 0 else ""
             name = "%si%d_%s%d.%s" % (sub, i, "abc"[j], r.below(3), ext)
-            if any(name == n for n, _ in inputs):
+            # inputs are shared on purpose: the same file (or an equally named file in another directory)
+            # given to an earlier invocation, typically with another -o / another mode, as parallel builds do
+            if all_inputs and r.below(3) == 0:
+                name, kind = r.pick(all_inputs)
+                if r.below(4) == 0 and "/" not in name:
+                    name = "d%d/%s" % (r.below(2), name)
+                ext = name[-1]
+                if mode == "E" and ext != "c":
+                    continue
+            # within one command two inputs never share a stem: they would be told to produce the same default output
+            stem = os.path.basename(name).rsplit(".", 1)[0]
+            if any(stem == os.path.basename(n).rsplit(".", 1)[0] for n, _ in inputs):
                 continue
             inputs.append((name, kind))
+            all_inputs.append((name, kind))
         use_o = False
         out = None
         if mode == "link":
@@ -181,6 +194,10 @@ def gen_scenario(seed, opts):
         if req & seen and m["mode"] == "link" and not m["refused"]:
             inv["argv"] = [a for k, a in enumerate(inv["argv"]) if not (a == "-o" or a.startswith("-o") or (k > 0 and inv["argv"][k - 1] == "-o"))]
             inv["argv"] += ["-o", "link%d.exe" % i]
+            req = set(model(inv, files)["requested"])
+        if req & seen and len(m["inputs"]) == 1 and not m["refused"] and m["mode"] in ("S", "c", "E"):
+            inv["argv"] = [a for k, a in enumerate(inv["argv"]) if not (a == "-o" or a.startswith("-o") or (k > 0 and inv["argv"][k - 1] == "-o"))]
+            inv["argv"] += ["-o", "own%d.%s" % (i, {"S": "s", "c": "o", "E": "i"}[m["mode"]])]
             req = set(model(inv, files)["requested"])
         if req & seen:
             continue
